@@ -552,7 +552,17 @@ impl<T: Transport + 'static> SyncEngine<T> {
 
         // Plan deletions if requested
         if self.delete {
-            let deletions = planner.plan_deletions(&scanned_files, destination);
+            let mut deletions = planner.plan_deletions(&scanned_files, destination);
+
+            // A working file left behind by an interrupted run is reused (and renamed away) by the
+            // update of its file. Deleting it from a concurrent task would make that update fail,
+            // so it is not planned for deletion.
+            let working_files: std::collections::HashSet<PathBuf> = tasks
+                .iter()
+                .filter(|t| matches!(t.action, SyncAction::Update))
+                .map(|t| crate::temp_file::temp_path_for(&t.dest_path))
+                .collect();
+            deletions.retain(|d| !working_files.contains(&d.dest_path));
 
             // Apply deletion safety checks
             if !deletions.is_empty() && !self.force_delete {
